@@ -671,6 +671,7 @@ def _run(ctx):
         "rule": "an input is non-trivial when its token list starts with one of the seven statement keywords and has "
                 "at least two tokens (the parser gets past Parse's dispatch); enumerated sequences are distinct by "
                 "construction, text inputs are distinct by text",
+        "go_trees_not_expressible_in_Ast_v": len(sf.UNREP),
         "traces_validated_against_impl": nseq + len(texts),
         "token_sequences_enumerated": nseq,
         "enumerations": {lbl: sum(o["count"] for r, o in zip(reqs, eouts) if r["label"] == lbl)
